@@ -77,3 +77,80 @@ func TestRegressBlocksFromIDOfMovingTip(t *testing.T) {
 	}}
 	regress(t, "blocks-from-id-of-moving-tip", w, func(o *outcome) bool { return o.res != nil && o.res.Counters["op:rpcBlocksFromID"] >= 2000 })
 }
+
+// Fixed case of workload (g) (never a defect of the pinned revision; fixed parameters so that every tier runs one case with
+// every reader parked inside its store read and every other goroutine chasing it): a Set/Del that returned is staged -
+// a Get of the same key that was reading the store meanwhile must not put the old stored value back.
+func TestRegressStagedWriteSurvivesConcurrentGet(t *testing.T) {
+	w := &Workload{Kind: "lin", Procs: 4, Seed: 29, Budget: 240, Lin: &LinW{
+		Workers: 4, Views: 3, UseRoot: true, Modules: 1, Keys: 6, BaseQ: 4, Rounds: 40, Ops: 20,
+		Weights: []int{4, 2, 3, 2, 1, 1}, ParkUs: 300, ParkEvery: 1, Chase: 3, Yield: 1,
+	}}
+	regress(t, "staged-write-survives-concurrent-get", w, func(o *outcome) bool { return linNontrivial(w, o) })
+}
+
+// The same under the single-writer discipline (read-your-writes and last-write-committed need no search).
+func TestRegressStagedWriteSurvivesConcurrentGetSingleWriter(t *testing.T) {
+	w := &Workload{Kind: "lin", Procs: 8, Seed: 30, Budget: 240, Lin: &LinW{
+		Workers: 6, Views: 4, UseRoot: false, Modules: 2, Keys: 4, BaseQ: 3, Rounds: 40, Ops: 20,
+		Weights: []int{4, 2, 3, 2, 1, 1}, Owner: true, ParkUs: 200, ParkEvery: 1, Chase: 4, Yield: 0,
+	}}
+	regress(t, "staged-write-survives-concurrent-get-single-writer", w, func(o *outcome) bool { return linNontrivial(w, o) })
+}
+
+// The register checker of workload (g) on histories whose verdict is known (a checker that accepts everything would make
+// the oracle void, one that rejects a legal overlap would raise false alarms).
+func TestRegressLinearizabilityCheckerSelfTest(t *testing.T) {
+	W := func(call, ret int64, state int32) regOp {
+		return regOp{call: call, ret: ret, write: true, state: state}
+	}
+	R := func(call, ret int64, state int32) regOp { return regOp{call: call, ret: ret, state: state} }
+	cases := []struct {
+		name string
+		init int32
+		ops  []regOp
+		want bool
+	}{
+		{"empty", 1, nil, true},
+		{"read of the initial value", 1, []regOp{R(1, 2, 1)}, true},
+		{"lost write: Set returned, later read sees the old value", 1, []regOp{W(1, 2, 2), R(3, 4, 1)}, false},
+		{"lost write seen only at the end", 1, []regOp{R(1, 6, 1), W(2, 3, 2), R(7, 8, 1)}, false},
+		{"the seeded interleaving when it is legal: read overlaps the write and sees old, later reads see new", 1, []regOp{R(1, 6, 1), W(2, 3, 2), R(7, 8, 2)}, true},
+		{"revived delete", 1, []regOp{R(1, 6, 1), W(2, 3, 0), R(7, 8, 1)}, false},
+		{"overlapping read may see old", 1, []regOp{W(1, 4, 2), R(2, 3, 1)}, true},
+		{"overlapping read may see new", 1, []regOp{W(1, 4, 2), R(2, 3, 2)}, true},
+		{"new then old during one write", 1, []regOp{W(1, 10, 2), R(2, 3, 2), R(4, 5, 1)}, false},
+		{"old then new during one write", 1, []regOp{W(1, 10, 2), R(2, 3, 1), R(4, 5, 2)}, true},
+		{"two overlapping writes, either may win", 0, []regOp{W(1, 4, 1), W(2, 5, 2), R(6, 7, 1)}, true},
+		{"two overlapping writes, either may win (other)", 0, []regOp{W(1, 4, 1), W(2, 5, 2), R(6, 7, 2)}, true},
+		{"two ordered writes, first cannot win", 0, []regOp{W(1, 2, 1), W(3, 4, 2), R(5, 6, 1)}, false},
+		{"readers disagree on the order of two writes", 0, []regOp{W(1, 20, 1), W(2, 21, 2), R(3, 4, 1), R(5, 6, 2), R(7, 8, 1)}, false},
+		{"Has sees presence only", 0, []regOp{W(1, 2, 5), R(3, 4, -1), W(5, 6, 0), R(7, 8, 0)}, true},
+		{"Has after a returned delete", 1, []regOp{W(1, 2, 0), R(3, 4, -1)}, false},
+		{"read from the future", 0, []regOp{R(1, 2, 1), W(3, 4, 1)}, false},
+		{"absent read needs the delete ordered between two sets", 0, []regOp{W(1, 2, 1), W(3, 8, 0), W(4, 9, 2), R(10, 11, 0)}, true},
+		{"absent read after set that followed the delete", 0, []regOp{W(1, 2, 1), W(3, 4, 0), W(5, 6, 2), R(7, 8, 0)}, false},
+	}
+	for _, c := range cases {
+		got, _, _, exhausted := checkRegister(c.ops, c.init, 1_000_000)
+		if exhausted || got != c.want {
+			t.Errorf("checkRegister(%s) = %v (exhausted %v), want %v", c.name, got, exhausted, c.want)
+		}
+	}
+	// a wide history: 8 overlapping writers, then readers that all agree - and one that does not
+	var ops []regOp
+	for i := int64(0); i < 8; i++ {
+		ops = append(ops, W(1+i, 100+i, int32(i+1)))
+	}
+	for i := int64(0); i < 40; i++ {
+		ops = append(ops, R(200+2*i, 201+2*i, 5))
+	}
+	if ok, _, _, _ := checkRegister(ops, 0, 1_000_000); !ok {
+		t.Errorf("8 overlapping writes followed by agreeing reads must be linearizable")
+	}
+	ops = append(ops, R(400, 401, 6))
+	if ok, _, _, _ := checkRegister(ops, 0, 1_000_000); ok {
+		t.Errorf("a read of another writer's value after 40 agreeing reads must not be linearizable")
+	}
+	evid.R.Label("lin:checker-selftest-histories", int64(len(cases)+2))
+}
